@@ -228,6 +228,8 @@ pub fn pred_battery(n0: u64, n1: u64, s: &McState) -> String {
     let is_recv = |e: &LogEntry| matches!(e, LogEntry::McMessageReceived { .. });
     let is_fired = |e: &LogEntry| matches!(e, LogEntry::McTimerFired { .. });
     let recv_by = |e: &LogEntry, p: &String| matches!(e, LogEntry::McMessageReceived { dst, .. } if dst == p);
+    // a predicate that matches one entry for SEVERAL processes (sender or receiver)
+    let involves = |e: &LogEntry, p: &String| matches!(e, LogEntry::McMessageReceived { src, dst, .. } if dst == p || src == p);
     let mut out = String::new();
     let mut inv = |mut f: anysystem::mc::InvariantFn| {
         let r = std::panic::catch_unwind(std::panic::AssertUnwindSafe(|| f(s).is_err()));
@@ -261,6 +263,9 @@ pub fn pred_battery(n0: u64, n1: u64, s: &McState) -> String {
     for k in [0u64, 1, 2] { opt(prunes::sent_messages_limit(k)); }
     for l in [0usize, 1, 3] { opt(prunes::events_limit(is_recv, l)); }
     for l in [0usize, 1, 2] { opt(prunes::events_limit_per_proc(recv_by, vec![pname(0), pname(1)], l)); }
+    for l in [1usize, 2] { opt(prunes::events_limit_per_proc(involves, vec![pname(0), pname(1)], l)); }
+    for l in [1usize, 2] { opt(prunes::events_limit_per_proc(involves, vec![pname(1), pname(0)], l)); }
+    opt(prunes::events_limit_per_proc(involves, vec![pname(2), pname(1), pname(0)], 1));
     for n in [1usize, 2] { opt(prunes::event_happened_n_times_current_run(is_recv, n)); }
     opt(prunes::proc_permutations(&[pname(0), pname(1)]));
     opt(prunes::proc_permutations(&[pname(1), pname(0)]));
